@@ -1,4 +1,5 @@
 import TracklibVerif.Model.DTWTable
+import TracklibVerif.Model.DTWReal
 import TracklibVerif.Drv.Util
 /-! Driver handler for C18 (DTW / FDTW / Frechet matching), scalars = `Float` (IEEE bit patterns).
   match <cls> <dtw|fdtw|frechet> <1|2|inf> <dim> <track1> <track2>
@@ -13,7 +14,9 @@ import TracklibVerif.Drv.Util
       carries `diff`, `pair`, `ex`, `ey` features with other values), object #tracks + s is what step s returned.
       step = <m|c>:<mode constant>:<str(type(p)) without blanks>:<p as k|inf|->:<callable p computes k|inf|->:<dim>:<a>:<b>
       reply = as for match / compare, or `err:…`
-  track = x,y,z;x,y,z;…  (empty track = `_`); p = 0, 1, 2, 3, … or inf -/
+  track = x,y,z;x,y,z;…  (empty track = `_`); p = 0, 1, 2, 3, … or inf, or x<bits> for a number that is neither (`p = 1.5`: the bit
+  pattern of the float); the front ends run are those of `Model/DTWReal.lean` (`matchCallX`, `compareCallX`, `runSeqX`), `B**p` for
+  such a `p` being `Float.pow` -/
 namespace TV.Drv.C18
 open TV.DTW TV.Drv
 
@@ -57,16 +60,20 @@ def pnorm? (s : String) : Option PNorm :=
 def root (k : Nat) (x : Float) : Float :=
   if k = 1 then x else if k = 2 then Float.sqrt x else Float.pow x (1.0 / k.toFloat)
 
-def optNorm? (s : String) : Option (Option PNorm) :=
-  if s == "-" then some none else (pnorm? s).map some
+/-- the value of `p`: `inf`, a natural number, or `x<bits>` (any other finite number) -/
+def pexp? (s : String) : Option (PExp Float) :=
+  if s.startsWith "x" then (float? (s.drop 1).toString).map PExp.real else (pnorm? s).map PExp.norm
 
-def step? (s : String) : Option (Step Float) :=
+def optExp? (s : String) : Option (Option (PExp Float)) :=
+  if s == "-" then some none else (pexp? s).map some
+
+def step? (s : String) : Option (StepX Float) :=
   match s.splitOn ":" with
   | [f, m, ty, v, fn, d, a, b] => do
     let front ← (if f == "m" then some true else if f == "c" then some false else none)
     let mode ← m.toNat?
-    let val ← optNorm? v
-    let fnw ← optNorm? fn
+    let val ← optExp? v
+    let fnw ← optExp? fn
     let dim ← dim? d
     let a ← a.toNat?
     let b ← b.toNat?
@@ -109,16 +116,16 @@ def showRes : Res Float → String
 def handle (cmd : String) (args : List String) : String :=
   match cmd, args with
   | "match", [c, m, p, d, a, b] =>
-    match geom? c, mode? m, pnorm? p, dim? d, track? a, track? b with
+    match geom? c, mode? m, pexp? p, dim? d, track? a, track? b with
     | some G, some m, some p, some d, some t1, some t2 =>
-      match matchTracks G big m p d t1 t2 with
+      match matchTracksX Float.pow G big m p d t1 t2 with
       | .ok o => showOut o
       | .error e => e
     | _, _, _, _, _, _ => "bad-request"
   | "compare", [c, m, p, d, a, b] =>
-    match geom? c, mode? m, pnorm? p, dim? d, track? a, track? b with
+    match geom? c, mode? m, pexp? p, dim? d, track? a, track? b with
     | some G, some m, some p, some d, some t1, some t2 =>
-      match compareTracks G root Nat.toFloat big m p d t1 t2 with
+      match compareTracksX Float.pow G root Nat.toFloat big m p d t1 t2 with
       | .ok v => showFloat v
       | .error e => e
     | _, _, _, _, _, _ => "bad-request"
@@ -126,7 +133,7 @@ def handle (cmd : String) (args : List String) : String :=
     match geom? c, natList? pre, (splitTok steps ';').mapM step? with
     | some G, some pre, some steps =>
       match zipObjs? (splitTok ts '|') pre with
-      | some env => " | ".intercalate ((runSeq G root Nat.toFloat big env steps).map showRes)
+      | some env => " | ".intercalate ((runSeqX Float.pow G root Nat.toFloat big env steps).map showRes)
       | none => "bad-request"
     | _, _, _ => "bad-request"
   | "table", [p, dc] =>
